@@ -1260,7 +1260,11 @@ def rule_P4_sampler(ctx, rid='P4', rid6='P6'):
         if not any(cfg.can_reach(h, nid) for h in loop_heads):
             continue        # before the loop: covered by the first-batch obligation
         r = cfg.reach(nid, avoid=full | incr, edge_ok=edge_ok_for(nid))
-        leak = [h for h in loop_heads if h in r] + ([cfg.exit.id] if cfg.exit.id in r else [])
+        # ... nor before the next batch is handed to the likelihood: a kill while that batch is
+        # evaluated leaves the file of the last write (C05_m: counters reset after the write)
+        batches = {cfg.node_of(c).id for c in _calls_to(run, 'add_samples')} - {nid}
+        leak = [h for h in loop_heads if h in r] + ([cfg.exit.id] if cfg.exit.id in r else []) \
+            + sorted(b for b in batches if b in r)
         ok = not leak
         ctx.ob(rid6, 'Sampler.run:%s:persisted-before-next-step' % _site_key(desc), ok,
                run.where(cfg.nodes[nid].ast),
@@ -2713,4 +2717,88 @@ def rule_P15(ctx, cname, updater, reader, obj, rid='P15'):
                'key %r is restored into the bit generator\'s state' % r.key if ok else
                'key %r is read but not assigned into `<rng>.bit_generator.state`: the resumed '
                'sampler continues with a different random stream' % r.key)
+    return n
+
+
+REORDERING = {'sort', 'unique', 'argsort', 'flip', 'flipud', 'fliplr', 'sorted', 'set',
+              'frozenset', 'reversed', 'roll', 'shuffle', 'permutation', 'partition',
+              'argpartition', 'union1d', 'intersect1d', 'setdiff1d'}
+
+
+def _reordering_in(expr):
+    """First construct inside `expr` that changes the order or multiplicity of elements."""
+    for x in ast.walk(expr):
+        if isinstance(x, ast.Call):
+            f = x.func
+            name = f.attr if isinstance(f, ast.Attribute) else f.id if isinstance(f, ast.Name) \
+                else None
+            if name in REORDERING:
+                return x
+        if isinstance(x, ast.Slice) and x.step is not None:
+            st = x.step
+            if not (isinstance(st, ast.Constant) and st.value == 1):
+                return x
+    return None
+
+
+def rule_P17(ctx, only=None, rid='P17'):
+    """A value travels between an attribute and the file element by element in its own order.
+    Records of one object are aligned by position (periodic[i] <-> centers[i]; bounds[i] <->
+    points_bounds[i]); sorting, de-duplicating or reversing ONE of them on the way out or on
+    the way in silently re-pairs them (C09_m: `np.unique` in PhaseShift.read; C16_m: `np.sort` in
+    PhaseShift.write)."""
+    ctx.rule(rid, 'stored-in-own-order: no writer, updater or reader of a checkpointed class '
+             'sorts, de-duplicates, reverses or strides a value between attribute and file')
+    prog = ctx.program
+    funcs = []
+    for c, w, r, u, obj in persist_classes(prog):
+        if only and c.name not in only:
+            continue
+        funcs += [(w, 'W', None), (r, 'R', obj)] + ([(u, 'W', None)] if u is not None else [])
+    S_ = prog.classes.get('Sampler')
+    if S_ is not None and (not only or 'Sampler' in only):
+        for m, role in (('write', 'W'), ('write_shell_update', 'W'), ('__init__', 'R')):
+            if m in S_.methods:
+                funcs.append((S_.methods[m], role, 'self'))
+    n = 0
+    for f, role, obj in funcs:
+        gv = _group_vars(f)
+        if role == 'W':
+            for e in writer_table(f):
+                if e.src is None:
+                    continue
+                src = _resolve_local(f, e.src)
+                bad = _reordering_in(src)
+                n += 1
+                ctx.ob(rid, '%s:%s:own-order' % (f.qualname, e.key), bad is None, e.where,
+                       'written as it is held' if bad is None else
+                       '`%s` reorders / thins the value stored under %r: records aligned with it '
+                       'by position are re-paired after a read' % (unparse(bad)[:50], e.key))
+        else:
+            par = _parents(f.node)
+            for e in reader_table(f, obj):
+                p = e.node
+                while p is not None and not isinstance(p, ast.stmt):
+                    p = par.get(id(p))
+                if p is None or isinstance(p, (ast.If, ast.While, ast.For)):
+                    continue
+                bad = None
+                # only constructs the read value flows through
+                q = e.node
+                while q is not p and q is not None:
+                    q2 = par.get(id(q))
+                    if isinstance(q2, ast.Call) and _reordering_in(
+                            ast.Expression(body=ast.Call(func=q2.func, args=[], keywords=[]))):
+                        bad = q2
+                        break
+                    if isinstance(q2, ast.Subscript) and q is q2.value and \
+                            _reordering_in(q2.slice) is not None:
+                        bad = q2
+                        break
+                    q = q2
+                n += 1
+                ctx.ob(rid, '%s:%s:own-order' % (f.qualname, e.key), bad is None, e.where,
+                       'restored as it was stored' if bad is None else
+                       '`%s` reorders / thins the value read from %r: records aligned with it '
+                       'by position are re-paired' % (unparse(bad)[:50], e.key))
     return n
